@@ -319,7 +319,9 @@ Definition test_matches (pl nl nn : string) (t : dtest) : bool :=
   match t with
   | TLabel l => String.eqb nl l
   | TName n => String.eqb nn n
-  | TNameIf n _ => String.eqb nn n          (* "... && parent->field": taken as if the single child existed (conservative) *)
+  | TNameIf _ _ => false     (* "node_name == N && parent->field": fires only while the single child kept in `field` exists;
+                                that child is then THE node called N (sibling names are unique), so for a node that is a
+                                member of one of the arrays -- the only nodes [disp_of] is asked about -- the test is false *)
   | TPLabelName p n => String.eqb pl p && String.eqb nn n
   end.
 Definition row_matches (pl nl nn : string) (r : drow) : bool :=
@@ -473,6 +475,10 @@ Definition positions_without_block (dt : list dblock) (gt : list Goto.brow) : li
 (* leaf positions: labels that have no goto block of their own have no children the API can create *)
 Definition positions_with_children (gt : list Goto.brow) : list string :=
   dedup (List.concat (map Goto.block_parents gt)).
+(* ... the ones that matter: a position that can hold children and has no block (the child is deleted from the file,
+   "Unrecognized label" is returned, the session keeps it) *)
+Definition parents_without_block (dt : list dblock) (gt : list Goto.brow) : list string :=
+  filter (fun l => smem l (positions_with_children gt)) (positions_without_block dt gt).
 
 (* ---- decidable consistency of the regenerated tables *)
 Definition expected_preamble : list string :=
